@@ -3,7 +3,9 @@
 B1  TLC explores MC_RoadmLaw (RoadmLaw.tla): node policy of each kind written in the library or in the element,
     egress-degree setting absent / pch / psd / psw, add / drop / express, three channel types, inputs below / at /
     above target mixed per channel, offsets, path loss per frequency range (per channel), an egress degree set to
-    exactly 0 dBm, impairment profiles of the crossed path type listed out of id order / named by the element; clauses SinglePolicy, InvalidRejected, NeverAmplifies(+Step),
+    exactly 0 dBm, impairment profiles of the crossed path type listed out of id order / named by the element, the
+    network designed or exported and loaded again, and a SECOND crossing of the same ROADM by other baud rates / slot
+    widths on the same frequencies (no memory); clauses SinglePolicy, InvalidRejected, NeverAmplifies(+Step),
     EqualisedToTarget, BelowTargetLossOnly, TargetIsDegreeElseNode, LevelByKind as invariants.
 B2  every case TLC emits (configuration + per-channel inputs + the spec's expected outputs) is executed on a real Roadm of
     a small designed A-B-C line built from equipment + topology JSON, and compared per channel (+/-3 udB); every
@@ -18,6 +20,7 @@ B3  every ROADM crossing recorded inside the real gnpy.topology.request.propagat
     without imposed mode on a transceiver whose modes carry equalisation offsets; every pass, Z->A included, is judged
     against the offset the equipment library gives to the mode of the propagated baud rate.
 """
+import json
 import random
 import traceback
 
@@ -40,6 +43,8 @@ def cfg_text(offsets, load_only=False, emit=None, maxloss='MCMaxLossVecsQuick'):
     base = (tlc.SPEC / 'MC_RoadmLaw.cfg').read_text()
     base = base.replace('OffsetVecs <- MCOffsetVecsQuick', f'OffsetVecs <- {offsets}')
     base = base.replace('MaxLossVecs <- MCMaxLossVecsQuick', f'MaxLossVecs <- {maxloss}')
+    if maxloss != 'MCMaxLossVecsQuick':                   # thorough tier: every degree kind also with element-level policies
+        base = base.replace('EltDegKinds <- MCEltDegKindsQuick', 'EltDegKinds <- MCDegKinds')
     if load_only:
         base = base.replace('LoadCases <- MCLoadCases', 'LoadCases <- MCLoadCasesAll')
         base = base.replace('DegKinds <- MCDegKinds', 'DegKinds <- MCDegNone')
@@ -48,6 +53,7 @@ def cfg_text(offsets, load_only=False, emit=None, maxloss='MCMaxLossVecsQuick'):
         base = base.replace(f'OffsetVecs <- {offsets}', 'OffsetVecs <- MCOffsetOne')
         base = base.replace(f'MaxLossVecs <- {maxloss}', 'MaxLossVecs <- MCMaxLossOne')
         base = base.replace('ProfKinds <- MCProfKinds', 'ProfKinds <- MCProfOne')
+        base = base.replace('Stages <- MCStages', 'Stages <- MCStageOne')
     if emit:
         base = '\n'.join(ln for ln in base.splitlines() if not ln.startswith(('INVARIANT', 'PROPERTY')))
         base += f'\nINVARIANT {emit}\n'
@@ -86,7 +92,7 @@ DEGREES = {'add': ('trx B', 'booster BC'), 'drop': ('preamp AB', 'trx B'), 'expr
 
 
 def build(lib, elt, node_v, deg=None, crossing='express', profiles=None, explicit_id=None, design=True,
-          minimal_profile=False):
+          minimal_profile=False, reloaded=False):
     """equipment + topology JSON for one configuration -> (designed network, roadm B).  lib / elt: lists of policy
     kinds written in the library entry / in the element; node_v: {kind: value in udB}; deg: the spec's egress-degree
     setting; profiles: the spec's profiles of the crossed path type as listed [{id, type, loss}] (udB); explicit_id: the
@@ -121,13 +127,27 @@ def build(lib, elt, node_v, deg=None, crossing='express', profiles=None, explici
     eq, net = load_eqpt_topo_from_json(eq_json, topo)
     if design:
         net, _, _ = designed_network(eq, net)
+    if reloaded:
+        # the designed network is exported (what save_network writes) and loaded again: same configuration
+        from gnpy.tools.json_io import network_to_json, network_from_json
+        net = network_from_json(json.loads(json.dumps(network_to_json(net))), eq)
+        net, _, _ = designed_network(eq, net)
     return net, next(n for n in net.nodes() if n.uid == 'roadm B')
 
 
-def spectral_info(ch):
+BAUD2 = [64e9, 32e9, 64e9]          # second crossing: other transceiver modes on the same three frequencies
+SLOT2 = [75e9, 50e9, 75e9]
+
+
+def spectral_info(ch, second=False):
     from gnpy.core.info import create_arbitrary_spectral_information
     pch = [1e-3 * 10 ** (c['in'] / 1e7) for c in ch]
-    return create_arbitrary_spectral_information(frequency=FREQ, pch=pch, baud_rate=BAUD, slot_width=SLOT, tx_osnr=40,
+    types = list(zip(BAUD2, SLOT2)) if second else list(zip(BAUD, SLOT))
+    for c, (b, w) in zip(ch, types):
+        if L.udb(L.db(b / 1e9)) != c['baudDb'] or L.udb(L.db(w / 1e9)) != c['slotDb']:
+            raise Machinery('channel types of the harness differ from the MC constants')
+    return create_arbitrary_spectral_information(frequency=FREQ, pch=pch, baud_rate=[t[0] for t in types],
+                                                 slot_width=[t[1] for t in types], tx_osnr=40,
                                                  tx_power=pch, roll_off=0.1,
                                                  delta_pdb_per_channel=[c['offset'] / 1e6 for c in ch])
 
@@ -146,11 +166,11 @@ class Replay:
         self.traces = {}
         self.worst = 0.0
         self.counts = {'above': 0, 'below': 0, 'mixed': 0, 'deg_other_kind': 0, 'below_in_lower_loss_range': 0,
-                       'degree_set_to_zero': 0, 'profiles_not_listed_by_id': 0, 'profile_named_by_element': 0}
+                       'degree_set_to_zero': 0, 'profiles_not_listed_by_id': 0, 'profile_named_by_element': 0, 'reloaded': 0, 'second_crossing': 0}
 
     def bench(self, cs, minimal_profile):
         key = (tuple(cs['lib']), tuple(cs['elt']), cs['degKind'], cs['crossing'], tuple(cs['maxloss']), cs['prof'],
-               minimal_profile)
+               cs['stage'], minimal_profile)
         if key not in self.benches:
             node_v = {cs['node']['kind']: cs['node']['v']}
             # a library default of another kind (replaced by the element) keeps its own plausible value
@@ -158,7 +178,7 @@ class Replay:
                 node_v.setdefault(k, {'pch': -20000000, 'psd': -35000000, 'psw': -37000000}[k])
             self.benches[key] = build(cs['lib'], cs['elt'], node_v, cs['deg'], cs['crossing'], cs['profiles'],
                                       None if cs['explicitId'] == NONE else cs['explicitId'],
-                                      minimal_profile=minimal_profile)
+                                      minimal_profile=minimal_profile, reloaded=cs['stage'] == 'reloaded')
         return key, self.benches[key][1]
 
     def one(self, cs, minimal_profile=False):
@@ -168,7 +188,7 @@ class Replay:
         rels = [relation(c) for c in cs['ch']]
         cls = f"node={cs['node']['kind']}@{'elt' if cs['elt'] else 'lib'}|deg={cs['degKind']}|{cs['crossing']}" \
               f"|maxloss={'0' if not any(cs['maxloss']) else 'uniform' if len(set(cs['maxloss'])) == 1 else 'per-range'}" \
-              f"{'' if cs['prof'] == 'single' else '|profiles=' + cs['prof']}|offsets={'0' if not any(c['offset'] for c in cs['ch']) else 'mixed'}"
+              f"{'' if cs['prof'] == 'single' else '|profiles=' + cs['prof']}{'|reloaded' if cs['stage'] == 'reloaded' else ''}|offsets={'0' if not any(c['offset'] for c in cs['ch']) else 'mixed'}"
         if minimal_profile:
             cls = 'impairment profile gives roadm-maxloss only|' + cls
         else:
@@ -176,6 +196,8 @@ class Replay:
             self.counts['below'] += 'below' in rels
             self.counts['mixed'] += ('above' in rels and 'below' in rels)
             self.counts['deg_other_kind'] += (cs['degKind'] != 'none' and cs['deg']['kind'] != cs['node']['kind'])
+            self.counts['reloaded'] += cs['stage'] == 'reloaded'
+            self.counts['second_crossing'] += bool(cs['ch2'])
             self.counts['degree_set_to_zero'] += cs['degKind'] == 'pch0'
             self.counts['profiles_not_listed_by_id'] += cs['prof'] == 'firstListed'
             self.counts['profile_named_by_element'] += cs['prof'] == 'explicit'
@@ -210,6 +232,27 @@ class Replay:
         e = L.roadm_event(rec.events[-1]) if rec.events else None
         if e is not None:
             self.traces.setdefault('B2 ' + '|'.join(map(str, key)), []).append(e)
+        if minimal_profile or not cs['ch2']:
+            return
+        # second crossing of the SAME Roadm object: same frequencies, other baud rates / slot widths (NoMemory)
+        try:
+            with Recording() as rec:
+                out2 = roadm(spectral_info(cs['ch2'], second=True), degree=to, from_degree=frm)
+            got2 = [L.udb(x) for x in L.dbm(out2.pch)]
+        except Exception as ex:                                         # noqa
+            chk.violation(f'B2|exception|second crossing|{cls}|{type(ex).__name__}',
+                          dict(case=cs, exception=traceback.format_exc()[-1500:]))
+            return
+        dev2 = max(abs(g - c['out']) for g, c in zip(got2, cs['ch2']))
+        if dev2 > 3:
+            chk.violation(f'B2|{cls}|second crossing with other baud rates / slot widths on the same frequencies',
+                          dict(case=cs, code_out_udb=got2, spec_out_udb=[c['out'] for c in cs['ch2']], egress=to, ingress=frm))
+        else:
+            self.worst = max(self.worst, dev2)
+            chk.traces += 1
+        e2 = L.roadm_event(rec.events[-1]) if rec.events else None
+        if e2 is not None:
+            self.traces['B2 ' + '|'.join(map(str, key))].append(e2)
 
 
 def replay_crossings(cases, chk):
@@ -234,6 +277,8 @@ def replay_crossings(cases, chk):
     chk.cov['b2_cases_degree_set_to_exactly_zero'] = counts['degree_set_to_zero']
     chk.cov['b2_cases_two_profiles_not_listed_by_id'] = counts['profiles_not_listed_by_id']
     chk.cov['b2_cases_profile_named_by_element'] = counts['profile_named_by_element']
+    chk.cov['b2_cases_on_exported_and_reloaded_network'] = counts['reloaded']
+    chk.cov['b2_cases_with_second_crossing_other_channel_types'] = counts['second_crossing']
     if not all(counts.values()):
         raise Machinery(f'vacuous generation: {counts}')
     return [{'name': n, 'ev': ev} for n, ev in rp.traces.items()]
